@@ -63,6 +63,7 @@ class Recorder:
 
     def __init__(self):
         self.evaluations = 0
+        self.units = 0                 # executions classified non-trivial (one generated case may contain several)
         self.nontrivial = set()
         self.labels = collections.Counter()
         self.samples: List[Any] = []
@@ -80,6 +81,7 @@ class Recorder:
         h = jhash(key)
         new = h not in self.nontrivial
         self.nontrivial.add(h)
+        self.units += 1
         if new and sample is not None:
             g = self._groups.setdefault(group, [0, 1, 0])       # seen, next threshold, kept
             g[0] += 1
@@ -103,18 +105,19 @@ class Recorder:
         extra = {}
         for k, v in self.extra.items():
             extra[k] = sorted(v, key=str) if isinstance(v, set) else v
-        return {"evaluations": self.evaluations, "nontrivial": list(self.nontrivial), "labels": dict(self.labels),
+        return {"evaluations": self.evaluations, "units": self.units, "nontrivial": list(self.nontrivial), "labels": dict(self.labels),
                 "samples": self.samples, "excluded": dict(self.excluded), "extra": extra,
                 "extra_sets": [k for k, v in self.extra.items() if isinstance(v, set)],
                 "violations": self.violations, "known": self.known, "notes": self.notes, "errors": self.errors}
 
     @staticmethod
     def merge(dumps: List[dict]) -> dict:
-        out = {"evaluations": 0, "nontrivial": set(), "labels": collections.Counter(), "samples": [],
+        out = {"evaluations": 0, "units": 0, "nontrivial": set(), "labels": collections.Counter(), "samples": [],
                "excluded": collections.Counter(), "extra": {}, "violations": [], "known": {}, "notes": [],
                "errors": []}
         for d in dumps:
             out["evaluations"] += d["evaluations"]
+            out["units"] += d.get("units", 0)
             out["nontrivial"].update(d["nontrivial"])
             out["labels"].update(d["labels"])
             out["excluded"].update(d["excluded"])
